@@ -50,6 +50,9 @@ func brokenf(format string, args ...any) {
 
 // LoadProgram loads /repo with the given environment additions (GOOS=...).
 func LoadProgram(repo, tier string, env []string, overlay map[string][]byte) *Program {
+	if slotFile == nil {
+		acquireSlot()
+	}
 	t0 := time.Now()
 	os.Unsetenv("GOWORK")
 	cfg := &packages.Config{
